@@ -532,7 +532,7 @@ class _OutOfDomain(Exception):
 
 
 def _count(tree, op):
-    if isinstance(tree, str):
+    if SH.is_leaf(tree):
         return 0
     return (1 if tree[0] == op else 0) + sum(_count(t, op) for t in tree[1:])
 
@@ -542,6 +542,8 @@ def sh_eval_int(tree, vals, inter, divs):
     in `inter` and every (dividend, divisor) in `divs`"""
     if isinstance(tree, str):
         return vals[tree]
+    if tree[0] == "lit":
+        return tree[1]
     if tree[0] == "neg":
         v = -sh_eval_int(tree[1], vals, inter, divs)
     else:
@@ -569,6 +571,8 @@ def sh_eval_typed(tree, vals, lo, hi):
     overflow to infinity)."""
     if isinstance(tree, str):
         return vals[tree]
+    if tree[0] == "lit":
+        return float(tree[1]) if isinstance(vals.get("a"), float) else tree[1]
     if tree[0] == "neg":
         v = sh_eval_typed(tree[1], vals, lo, hi)
         r = -v
@@ -611,6 +615,7 @@ def h_c19_shape(env, rec, field):
     T = pkg(env, "c19computed").types
     cls = getattr(T, rec)
     text, tree = SH.shapes()[field]
+    text = text.replace("LIT", SH.LITERAL_RECORDS.get(rec, ""))
     same = lambda p, q: type(p) is type(q) and (p == q or (p != p and q != q))
     if rec != SH.FLOAT_RECORD and not SH.uses_pow(tree):
         # integer operands, symbolic over the field type (narrowed so that products stay inside the 80-bit model)
